@@ -13,6 +13,13 @@ package harness
 // (proposed / finalized / active / cancelled / destroyed: a marker account can hold scope
 // tokens in every one of them).  The Lean driver compares the dumps with the model and runs the property's step
 // checker on consecutive implementation dumps.
+//
+// Route dimension: a message op with the suffix `tx=own` / `tx=fg.<granter>` is not handed to its
+// msg server but delivered as a signed transaction (deliver(): real signatures, fees paid by the
+// first signer or by a fee granter under an x/feegrant allowance, the app's ante handler, the
+// context it returns carried into the message, the app's message service router).  The model
+// ignores the suffix: who pays the fees must not change who has to consent.
+// `mkadd` asks the marker module for a marker on the denom of a scope token (always refused).
 
 import (
 	"fmt"
@@ -23,8 +30,13 @@ import (
 	"time"
 
 	sdkmath "cosmossdk.io/math"
+	"cosmossdk.io/x/feegrant"
 
+	clienttx "github.com/cosmos/cosmos-sdk/client/tx"
+	"github.com/cosmos/cosmos-sdk/crypto/keys/secp256k1"
 	sdk "github.com/cosmos/cosmos-sdk/types"
+	"github.com/cosmos/cosmos-sdk/types/tx/signing"
+	authsigning "github.com/cosmos/cosmos-sdk/x/auth/signing"
 	authtypes "github.com/cosmos/cosmos-sdk/x/auth/types"
 	"github.com/cosmos/cosmos-sdk/x/authz"
 	bankkeeper "github.com/cosmos/cosmos-sdk/x/bank/keeper"
@@ -113,6 +125,7 @@ type vownerEnv struct {
 	mk    markertypes.MsgServer
 	ex    exchange.MsgServer
 	mdnm  map[string]string // marker name -> its denom
+	priv  map[string]*secp256k1.PrivKey // signing keys of the ordinary accounts (transactions through the ante handler)
 	seen  map[vownerGrant]bool // generator only: every grant that was in force at some step of this history
 }
 
@@ -125,17 +138,33 @@ func vownerSetup(t *testing.T) *vownerEnv {
 	vownerOnce.Do(func() {
 		a, ctx := NewApp(t)
 		ctx = ctx.WithBlockTime(time.Unix(1_700_000_000, 0))
-		e := &vownerEnv{t: t, app: a, addr: map[string]sdk.AccAddress{}, name: map[string]string{}, scope: map[string]mdtypes.MetadataAddress{}, mdnm: map[string]string{}}
+		e := &vownerEnv{t: t, app: a, addr: map[string]sdk.AccAddress{}, name: map[string]string{}, scope: map[string]mdtypes.MetadataAddress{}, mdnm: map[string]string{}, priv: map[string]*secp256k1.PrivKey{}}
 		reg := func(n string, ad sdk.AccAddress) {
 			e.addr[n] = ad
 			e.name[ad.String()] = n
 		}
 		for _, n := range vownerAccts {
-			ad := sdk.AccAddress([]byte("verif_vown_account_" + n))
+			// ordinary accounts have a key pair (they sign the transactions of the `tx=` mode), a public
+			// key on record and a non-zero sequence
+			pk := secp256k1.GenPrivKeyFromSecret([]byte("verif_vown_account_" + n))
+			ad := sdk.AccAddress(pk.PubKey().Address())
+			e.priv[n] = pk
 			reg(n, ad)
 			acc := a.AccountKeeper.NewAccountWithAddress(ctx, ad)
+			_ = acc.SetPubKey(pk.PubKey())
 			_ = acc.SetSequence(7)
 			a.AccountKeeper.SetAccount(ctx, acc)
+		}
+		// every ordinary account can pay transaction fees (own fees, or somebody else's under a fee allowance)
+		feeDenom := vownerFeeDenom(a, ctx)
+		for _, n := range vownerAccts {
+			coins := sdk.NewCoins(sdk.NewCoin(feeDenom, sdkmath.NewInt(1_000_000_000_000_000_000)))
+			if err := a.BankKeeper.MintCoins(ctx, "mint", coins); err != nil {
+				t.Fatalf("mint fee coins: %v", err)
+			}
+			if err := a.BankKeeper.SendCoinsFromModuleToAccount(ctx, "mint", e.addr[n], coins); err != nil {
+				t.Fatalf("fund fee coins: %v", err)
+			}
 		}
 		// K: a BaseAccount with sequence 0 and no public key — what metadata's isWasmAccount
 		// takes for a smart contract.
@@ -263,7 +292,7 @@ func vownerClass(err error) string {
 		return "err:perm"
 	case has("order") && (has("not found") || has("does not exist")):
 		return "err:notfound"
-	case has("has the same seller"), has("does not equal sum of ask order prices"):
+	case has("has the same seller"), has("does not equal sum of ask order prices"), has("fails unrestricted marker denom validation"):
 		return "err:invalid"
 	case has("duplicate metadata address"):
 		return "err:dup"
@@ -294,7 +323,159 @@ func (e *vownerEnv) signersOK(msg sdk.Msg, want []string) bool {
 	return true
 }
 
-func (e *vownerEnv) run(msg sdk.Msg, signers []string, f func(ctx sdk.Context) error) string {
+// vownerFeeDenom: the denom transaction fees are paid in (the floor gas price's denom).
+func vownerFeeDenom(a *app.App, ctx sdk.Context) string {
+	if d := a.MsgFeesKeeper.GetFloorGasPrice(ctx).Denom; d != "" {
+		return d
+	}
+	return "nhash"
+}
+
+const vownerTxGas = uint64(4_000_000) // the most a transaction may ask for (antewrapper gasTxLimit)
+
+// deliver runs msg the way baseapp.runTx delivers a transaction: the message is put in a
+// transaction signed by its signers (real keys, the accounts' current sequences) with the fees paid
+// by the first signer (txm "own") or by `fg.<granter>` under a fee allowance the granter gave the
+// first signer (x/feegrant BasicAllowance, set up here: the op's meaning is "there is such an
+// allowance"); the encoded transaction is decoded again, the APP'S ANTE HANDLER runs on a branch of
+// the history's store, THE CONTEXT IT RETURNS (on the history's store) is the one the message runs
+// in — baseapp.go:919-928 — and the message is handed to the app's message service router on a
+// second branch that is written only when the handler succeeds (baseapp.go:966-1008).  What the ante
+// handler wrote (fees, sequences) stays when the message fails, as on the chain; neither is part of
+// the dump.  The fees never involve a scope denom.
+func (e *vownerEnv) deliver(msg sdk.Msg, signers []string, txm string) string {
+	var names []string
+	for _, sg := range signers {
+		n, ok := e.name[sg]
+		if !ok || e.priv[n] == nil {
+			return "err:tx-signer"
+		}
+		names = append(names, n)
+	}
+	if len(names) == 0 {
+		return "err:tx-signer"
+	}
+	var granter sdk.AccAddress
+	switch {
+	case txm == "own":
+	case strings.HasPrefix(txm, "fg."):
+		g, ok := e.addr[txm[3:]]
+		if !ok {
+			return "bad-op"
+		}
+		granter = g
+		if al, _ := e.app.FeeGrantKeeper.GetAllowance(e.ctx, granter, e.addr[names[0]]); al == nil {
+			if err := e.app.FeeGrantKeeper.GrantAllowance(e.ctx, granter, e.addr[names[0]], &feegrant.BasicAllowance{}); err != nil {
+				return "err:tx-allowance"
+			}
+		}
+	default:
+		return "bad-op"
+	}
+	cfg := e.app.GetTxConfig()
+	b := cfg.NewTxBuilder()
+	if err := b.SetMsgs(msg); err != nil {
+		return "err:tx-build"
+	}
+	price := e.app.MsgFeesKeeper.GetFloorGasPrice(e.ctx).Amount
+	if price.IsNil() || !price.IsPositive() {
+		price = sdkmath.OneInt()
+	}
+	b.SetGasLimit(vownerTxGas)
+	b.SetFeeAmount(sdk.NewCoins(sdk.NewCoin(vownerFeeDenom(e.app, e.ctx), price.MulRaw(int64(vownerTxGas)))))
+	if granter != nil {
+		b.SetFeeGranter(granter)
+	}
+	mode := signing.SignMode(cfg.SignModeHandler().DefaultMode())
+	sigs := make([]signing.SignatureV2, len(names))
+	accN := make([]uint64, len(names))
+	for i, n := range names {
+		acc := e.app.AccountKeeper.GetAccount(e.ctx, e.addr[n])
+		if acc == nil {
+			return "err:tx-signer"
+		}
+		accN[i] = acc.GetAccountNumber()
+		sigs[i] = signing.SignatureV2{PubKey: e.priv[n].PubKey(), Data: &signing.SingleSignatureData{SignMode: mode}, Sequence: acc.GetSequence()}
+	}
+	if err := b.SetSignatures(sigs...); err != nil {
+		return "err:tx-build"
+	}
+	for i, n := range names {
+		sd := authsigning.SignerData{Address: e.addr[n].String(), ChainID: e.ctx.ChainID(), AccountNumber: accN[i], Sequence: sigs[i].Sequence, PubKey: e.priv[n].PubKey()}
+		sig, err := clienttx.SignWithPrivKey(e.ctx, mode, sd, b, e.priv[n], cfg, sigs[i].Sequence)
+		if err != nil {
+			return "err:tx-sign"
+		}
+		sigs[i] = sig
+	}
+	if err := b.SetSignatures(sigs...); err != nil {
+		return "err:tx-build"
+	}
+	bz, err := cfg.TxEncoder()(b.GetTx())
+	if err != nil {
+		return "err:tx-build"
+	}
+	tx, err := cfg.TxDecoder()(bz)
+	if err != nil || len(tx.GetMsgs()) != 1 {
+		return "err:tx-build"
+	}
+	res := ""
+	func() {
+		defer func() {
+			if r := recover(); r != nil {
+				res = "panic:" + panicClass(sprint(r))
+			}
+		}()
+		ctx := e.ctx.WithTxBytes(bz)
+		ms := ctx.MultiStore()
+		anteCtx, anteWrite := ctx.CacheContext()
+		newCtx, err := e.app.BaseApp.AnteHandler()(anteCtx, tx, false)
+		if !newCtx.IsZero() {
+			ctx = newCtx.WithMultiStore(ms)
+		}
+		if err != nil {
+			e.t.Logf("vowner: ante handler refused %T: %v", msg, err)
+			res = "err:ante"
+			return
+		}
+		anteWrite()
+		m := tx.GetMsgs()[0]
+		handler := e.app.MsgServiceRouter().Handler(m)
+		if handler == nil {
+			res = "err:noroute"
+			return
+		}
+		msgCtx, msgWrite := ctx.CacheContext()
+		if _, err := handler(msgCtx, m); err != nil {
+			res = vownerClass(err)
+			return
+		}
+		msgWrite()
+		res = "ok"
+	}()
+	return res
+}
+
+// vownerOpSigners: the (symbolic) signers of a message op; false for ops that are not messages.
+func vownerOpSigners(ws []string) ([]string, bool) {
+	switch ws[0] {
+	case "write", "delete", "updvo", "migrate":
+		return vownerSplit(kvArg2(ws, "signers")), true
+	case "send", "msend":
+		return []string{kvArg2(ws, "from")}, true
+	case "mwithdraw", "mtransfer":
+		return []string{kvArg2(ws, "admin")}, true
+	case "ask":
+		return []string{kvArg2(ws, "seller")}, true
+	case "fill":
+		return []string{kvArg2(ws, "buyer")}, true
+	case "cancel", "mkadd":
+		return []string{kvArg2(ws, "signer")}, true
+	}
+	return nil, false
+}
+
+func (e *vownerEnv) run(msg sdk.Msg, signers []string, txm string, f func(ctx sdk.Context) error) string {
 	type vb interface{ ValidateBasic() error }
 	if v, ok := msg.(vb); ok {
 		if err := v.ValidateBasic(); err != nil {
@@ -303,6 +484,9 @@ func (e *vownerEnv) run(msg sdk.Msg, signers []string, f func(ctx sdk.Context) e
 	}
 	if !e.signersOK(msg, signers) {
 		return "err:signer-mismatch"
+	}
+	if txm != "" {
+		return e.deliver(msg, signers, txm)
 	}
 	err, pan := Try(e.ctx, f)
 	if pan != "" {
@@ -491,6 +675,7 @@ func (e *vownerEnv) exec(op string) string {
 	if len(ws) == 0 {
 		return "bad-op"
 	}
+	txm := kvArg2(ws, "tx") // "" = the message goes straight to its msg server; own / fg.<granter> = delivered in a signed tx
 	switch ws[0] {
 	case "dump":
 		return e.dump()
@@ -550,7 +735,7 @@ func (e *vownerEnv) exec(op string) string {
 		seller := e.bech(kvArg2(ws, "seller"))
 		msg := &exchange.MsgCreateAskRequest{AskOrder: exchange.AskOrder{MarketId: vownerMarket, Seller: seller, Assets: id.Coin(),
 			Price: sdk.NewInt64Coin(vownerCoins["$c"], price)}}
-		return e.run(msg, []string{seller}, func(ctx sdk.Context) error { _, err := e.ex.CreateAsk(ctx, msg); return err })
+		return e.run(msg, []string{seller}, txm, func(ctx sdk.Context) error { _, err := e.ex.CreateAsk(ctx, msg); return err })
 	case "fill": // exchange MsgFillAsks of one ask order, signed by the buyer
 		var oid uint64
 		var price int64
@@ -558,13 +743,13 @@ func (e *vownerEnv) exec(op string) string {
 		fmt.Sscan(kvArg2(ws, "price"), &price)
 		buyer := e.bech(kvArg2(ws, "buyer"))
 		msg := &exchange.MsgFillAsksRequest{Buyer: buyer, MarketId: vownerMarket, TotalPrice: sdk.NewInt64Coin(vownerCoins["$c"], price), AskOrderIds: []uint64{oid}}
-		return e.run(msg, []string{buyer}, func(ctx sdk.Context) error { _, err := e.ex.FillAsks(ctx, msg); return err })
+		return e.run(msg, []string{buyer}, txm, func(ctx sdk.Context) error { _, err := e.ex.FillAsks(ctx, msg); return err })
 	case "cancel": // exchange MsgCancelOrder
 		var oid uint64
 		fmt.Sscan(kvArg2(ws, "order"), &oid)
 		signer := e.bech(kvArg2(ws, "signer"))
 		msg := &exchange.MsgCancelOrderRequest{Signer: signer, OrderId: oid}
-		return e.run(msg, []string{signer}, func(ctx sdk.Context) error { _, err := e.ex.CancelOrder(ctx, msg); return err })
+		return e.run(msg, []string{signer}, txm, func(ctx sdk.Context) error { _, err := e.ex.CancelOrder(ctx, msg); return err })
 	case "msend": // bank MsgMultiSend: one input (the signer), one unit of each named denom per output
 		from := e.bech(kvArg2(ws, "from"))
 		var outs []banktypes.Output
@@ -593,7 +778,7 @@ func (e *vownerEnv) exec(op string) string {
 			return "err:invalid"
 		}
 		msg := &banktypes.MsgMultiSend{Inputs: []banktypes.Input{{Address: from, Coins: total}}, Outputs: outs}
-		return e.run(msg, []string{from}, func(ctx sdk.Context) error { _, err := e.bank.MultiSend(ctx, msg); return err })
+		return e.run(msg, []string{from}, txm, func(ctx sdk.Context) error { _, err := e.bank.MultiSend(ctx, msg); return err })
 	case "mtransfer": // marker MsgTransfer of a scope token
 		id, ok := e.scope[kvArg2(ws, "id")]
 		if !ok {
@@ -601,7 +786,31 @@ func (e *vownerEnv) exec(op string) string {
 		}
 		admin := e.bech(kvArg2(ws, "admin"))
 		msg := &markertypes.MsgTransferRequest{Amount: id.Coin(), Administrator: admin, FromAddress: e.bech(kvArg2(ws, "from")), ToAddress: e.bech(kvArg2(ws, "to"))}
-		return e.run(msg, []string{admin}, func(ctx sdk.Context) error { _, err := e.mk.Transfer(ctx, msg); return err })
+		return e.run(msg, []string{admin}, txm, func(ctx sdk.Context) error { _, err := e.mk.Transfer(ctx, msg); return err })
+	case "mkadd": // marker MsgAddFinalizeActivateMarker / MsgAddMarker for a marker on the denom of a scope token
+		id, ok := e.scope[kvArg2(ws, "id")]
+		supply, ok2 := sdkmath.NewIntFromString(kvArg2(ws, "supply"))
+		if !ok || !ok2 {
+			return "bad-op"
+		}
+		signer := e.bech(kvArg2(ws, "signer"))
+		typ := markertypes.MarkerType_Coin
+		perms := markertypes.AccessList{markertypes.Access_Admin, markertypes.Access_Mint, markertypes.Access_Burn, markertypes.Access_Deposit, markertypes.Access_Withdraw, markertypes.Access_Delete}
+		if kvArg2(ws, "type") == "restricted" {
+			typ = markertypes.MarkerType_RestrictedCoin
+			perms = append(perms, markertypes.Access_Transfer, markertypes.Access_ForceTransfer)
+		}
+		forced := kvArg2(ws, "forced") == "1"
+		access := []markertypes.AccessGrant{{Address: signer, Permissions: perms}}
+		amount := sdk.Coin{Denom: id.Denom(), Amount: supply}
+		if kvArg2(ws, "msg") == "add" { // a proposed marker (finalize / activate would follow)
+			msg := &markertypes.MsgAddMarkerRequest{Amount: amount, Manager: signer, FromAddress: signer, Status: markertypes.StatusProposed,
+				MarkerType: typ, AccessList: access, AllowForcedTransfer: forced}
+			return e.run(msg, []string{signer}, txm, func(ctx sdk.Context) error { _, err := e.mk.AddMarker(ctx, msg); return err })
+		}
+		msg := &markertypes.MsgAddFinalizeActivateMarkerRequest{Amount: amount, Manager: signer, FromAddress: signer,
+			MarkerType: typ, AccessList: access, AllowForcedTransfer: forced}
+		return e.run(msg, []string{signer}, txm, func(ctx sdk.Context) error { _, err := e.mk.AddFinalizeActivateMarker(ctx, msg); return err })
 	case "write":
 		id, ok := e.scope[kvArg2(ws, "id")]
 		if !ok {
@@ -615,7 +824,7 @@ func (e *vownerEnv) exec(op string) string {
 		}
 		signers := e.bechs(kvArg2(ws, "signers"))
 		msg := &mdtypes.MsgWriteScopeRequest{Scope: sc, Signers: signers}
-		return e.run(msg, signers, func(ctx sdk.Context) error { _, err := e.md.WriteScope(ctx, msg); return err })
+		return e.run(msg, signers, txm, func(ctx sdk.Context) error { _, err := e.md.WriteScope(ctx, msg); return err })
 	case "delete":
 		id, ok := e.scope[kvArg2(ws, "id")]
 		if !ok {
@@ -623,7 +832,7 @@ func (e *vownerEnv) exec(op string) string {
 		}
 		signers := e.bechs(kvArg2(ws, "signers"))
 		msg := &mdtypes.MsgDeleteScopeRequest{ScopeId: id, Signers: signers}
-		return e.run(msg, signers, func(ctx sdk.Context) error { _, err := e.md.DeleteScope(ctx, msg); return err })
+		return e.run(msg, signers, txm, func(ctx sdk.Context) error { _, err := e.md.DeleteScope(ctx, msg); return err })
 	case "updvo":
 		var ids []mdtypes.MetadataAddress
 		for _, n := range vownerSplit(kvArg2(ws, "ids")) {
@@ -635,11 +844,11 @@ func (e *vownerEnv) exec(op string) string {
 		}
 		signers := e.bechs(kvArg2(ws, "signers"))
 		msg := &mdtypes.MsgUpdateValueOwnersRequest{ScopeIds: ids, ValueOwnerAddress: e.bech(kvArg2(ws, "vo")), Signers: signers}
-		return e.run(msg, signers, func(ctx sdk.Context) error { _, err := e.md.UpdateValueOwners(ctx, msg); return err })
+		return e.run(msg, signers, txm, func(ctx sdk.Context) error { _, err := e.md.UpdateValueOwners(ctx, msg); return err })
 	case "migrate":
 		signers := e.bechs(kvArg2(ws, "signers"))
 		msg := &mdtypes.MsgMigrateValueOwnerRequest{Existing: e.bech(kvArg2(ws, "from")), Proposed: e.bech(kvArg2(ws, "to")), Signers: signers}
-		return e.run(msg, signers, func(ctx sdk.Context) error { _, err := e.md.MigrateValueOwner(ctx, msg); return err })
+		return e.run(msg, signers, txm, func(ctx sdk.Context) error { _, err := e.md.MigrateValueOwner(ctx, msg); return err })
 	case "send":
 		coins, ok := e.coinsOf(vownerSplit(kvArg2(ws, "ids")))
 		if !ok {
@@ -647,7 +856,7 @@ func (e *vownerEnv) exec(op string) string {
 		}
 		from := e.bech(kvArg2(ws, "from"))
 		msg := &banktypes.MsgSend{FromAddress: from, ToAddress: e.bech(kvArg2(ws, "to")), Amount: coins}
-		return e.run(msg, []string{from}, func(ctx sdk.Context) error { _, err := e.bank.Send(ctx, msg); return err })
+		return e.run(msg, []string{from}, txm, func(ctx sdk.Context) error { _, err := e.bank.Send(ctx, msg); return err })
 	case "mwithdraw":
 		var coins sdk.Coins
 		for _, n := range vownerSplit(kvArg2(ws, "ids")) {
@@ -667,7 +876,7 @@ func (e *vownerEnv) exec(op string) string {
 		}
 		admin := e.bech(kvArg2(ws, "admin"))
 		msg := &markertypes.MsgWithdrawRequest{Denom: denom, Administrator: admin, ToAddress: e.bech(kvArg2(ws, "to")), Amount: coins}
-		return e.run(msg, []string{admin}, func(ctx sdk.Context) error { _, err := e.mk.Withdraw(ctx, msg); return err })
+		return e.run(msg, []string{admin}, txm, func(ctx sdk.Context) error { _, err := e.mk.Withdraw(ctx, msg); return err })
 	case "grant":
 		granter, grantee := e.addr[kvArg2(ws, "granter")], e.addr[kvArg2(ws, "grantee")]
 		url, ok := vownerMTURL[kvArg2(ws, "mt")]
@@ -1165,6 +1374,28 @@ func driveVowner(t *testing.T, rng *RNG, n int, out *Out) {
 		e.newHistory()
 		out.Comment(fmt.Sprintf("history %d", h))
 		emit := func(op string) string {
+			// the route a message takes to its handler: mostly straight to the msg server; a good part as
+			// a signed transaction through the app's ante handler and message router, the fees paid by the
+			// first signer or by somebody else under a fee allowance (signers with a key: ordinary accounts)
+			if sg, isMsg := vownerOpSigners(strings.Fields(op)); isMsg && len(sg) > 0 && len(vownerUniq(sg)) == len(sg) && rng.Chance(24) {
+				all := true
+				for _, x := range sg {
+					all = all && contains(vownerAccts, x)
+				}
+				if all {
+					if rng.Chance(60) {
+						g := Pick(rng, vownerAccts)
+						for g == sg[0] {
+							g = Pick(rng, vownerAccts)
+						}
+						op += " tx=fg." + g
+						out.Count("tx:fee-granted")
+					} else {
+						op += " tx=own"
+						out.Count("tx:own-fees")
+					}
+				}
+			}
 			r := e.exec(op)
 			k := strings.Fields(op)[0]
 			out.Count("op:" + k)
@@ -1352,7 +1583,41 @@ func driveVowner(t *testing.T, rng *RNG, n int, out *Out) {
 					r = emit(fmt.Sprintf("ask seller=%s asset=%s price=%d", seller, asset, rng.Intn(6)))
 				}
 			}
+			// a marker requested on the denom of a scope token (by anybody), and the request's sender then
+			// trying to move the token as the marker's transfer administrator
+			if k >= 0 && rng.Chance(4) {
+				k = -3
+				kind = "send"
+				id := Pick(rng, vownerIDs)
+				if len(held) > 0 && rng.Chance(85) {
+					id = Pick(rng, held)
+				}
+				signer := Pick(rng, people)
+				typ, forced := "coin", 0
+				if rng.Chance(75) {
+					typ = "restricted"
+					if rng.Chance(80) {
+						forced = 1
+					}
+				} else if rng.Chance(10) {
+					forced = 1 // refused by ValidateBasic
+				}
+				emit(fmt.Sprintf("mkadd signer=%s id=%s supply=%d type=%s forced=%d msg=%s", signer, id, Pick(rng, []int{1, 1, 1, 1, 2, 5, 0}), typ, forced, Pick(rng, []string{"afa", "afa", "afa", "afa", "add"})))
+				emit("dump")
+				from := v.holder[id]
+				if from == "" {
+					from = Pick(rng, people)
+				}
+				to := signer
+				if rng.Chance(30) {
+					to = vownerPickTarget(rng, anyHolder)
+				}
+				signers = signer
+				r = emit(fmt.Sprintf("mtransfer admin=%s from=%s to=%s id=%s", signer, from, to, id))
+				out.Count("op:mkadd+mtransfer")
+			}
 			switch {
+			case k == -3: // the marker-on-a-scope-denom step above
 			case k == -2: // the exchange step above
 			case k == -1: // the repeated message above
 			case k < 30 || len(existing) == 0: // write scope
